@@ -14,7 +14,9 @@ accumulator that SUMS or COMPARES per-part amounts, translated from the Rust tex
                      ClaimablePayments::begin_claiming_payment -> claimingAmount (+ pinned sender_intended_value)
                      impl From<&ClaimableHTLC> for ClaimedHTLC -> claimedHtlcValue / claimedHtlcSkim
                      process_receive_htlcs                  -> recvValue / recvPart
-  onion_payment.rs   create_recv_pending_htlc_info          -> recvAmountTooLow
+                     process_receive_htlcs (min_final_cltv_expiry_delta test after verify) -> recvCltvBelowMin
+  onion_payment.rs   create_recv_pending_htlc_info          -> recvAmountTooLow (the whole `if` statement, with its `let`s),
+                                                               recvRouting / keysendPreimageMismatch (keysend / invoice / refused), recvInfoAmounts
 
 Expressions, conditions and loop bodies go through rs2lean (swapping a field changes the generated
 Lean and the theorems of Props/C04.lean about these functions stop checking); the glue around them
@@ -483,17 +485,198 @@ def main(out_path):
           '  { ' + ', '.join('%s := %s' % f for f in flds) + ' }', '']
 
     # ---- create_recv_pending_htlc_info: the amount test ---------------------------------------------------
+    # Translated as a whole STATEMENT: the top-level `if` (chain, possibly nested, possibly preceded by pure `let`s that it
+    # reads) whose body returns `Err(InboundHTLCErr { reason: FinalIncorrectHTLCAmount, .. })`; every such return becomes
+    # `return true`, falling out of the statement is `false`.  A rewritten but readable test therefore REGENERATES
+    # (and the theorems recvAmountTest_exact / not_underpaid_without_opt_in decide whether it still means the same);
+    # shapes rs2lean cannot read (match, loops, calls of unknown functions, other free variables) stay TRANSLATE-ERRORs.
     _, _, body = find_fn(op, 'create_recv_pending_htlc_info')
     b = strip_comments(body)
-    idx = b.find('LocalHTLCFailureReason::FinalIncorrectHTLCAmount')
-    if idx < 0: raise TranslateError("FinalIncorrectHTLCAmount check not found")
-    ifs = [m for m in re.finditer(r'\bif\s+([^{}]*?)\{', b[:idx])]
-    cond = norm(ifs[-1].group(1))
-    check_vars(cond, {'allow_underpay', 'onion_amt_msat', 'amt_msat', 'counterparty_skimmed_fee_msat'}, 'create_recv_pending_htlc_info amount test')
-    L += ['/-- onion_payment.rs::create_recv_pending_htlc_info, FinalIncorrectHTLCAmount: `%s`' % cond,
+    if b.count('FinalIncorrectHTLCAmount') < 1: raise TranslateError("FinalIncorrectHTLCAmount check not found")
+    # (a) every `return Err(InboundHTLCErr { .. FinalIncorrectHTLCAmount .. })` -> `return true;`
+    nret = 0
+    while True:
+        idx = b.find('LocalHTLCFailureReason::FinalIncorrectHTLCAmount')
+        if idx < 0: break
+        r0 = b.rfind('return Err(InboundHTLCErr', 0, idx)
+        if r0 < 0: raise TranslateError("FinalIncorrectHTLCAmount is no longer inside `return Err(InboundHTLCErr { .. })`")
+        k = b.index('{', r0)
+        j = match_brace(b, k)
+        if not (k < idx < j): raise TranslateError("FinalIncorrectHTLCAmount is no longer inside `return Err(InboundHTLCErr { .. })`")
+        if len(re.findall(r'LocalHTLCFailureReason::(\w+)', b[k:j])) != 1 or not re.search(r'\breason\s*:\s*LocalHTLCFailureReason::FinalIncorrectHTLCAmount\s*[,}]', b[k:j]):
+            raise TranslateError("the FinalIncorrectHTLCAmount error literal names another reason as well")
+        mt_ = re.match(r'\s*\)\s*;?', b[j:])
+        if not mt_: raise TranslateError("`return Err(InboundHTLCErr { .. })` not closed as expected")
+        b = b[:r0] + 'return RECV_AMOUNT_TOO_LOW__;' + b[j + mt_.end():]
+        nret += 1
+    # (b) the top-level statements of the function body that contain such a return
+    depth = 0; par = 0; tops = []
+    for i_, ch_ in enumerate(b):
+        if ch_ == '{': depth += 1
+        elif ch_ == '}': depth -= 1
+        elif ch_ in '([': par += 1
+        elif ch_ in ')]': par -= 1
+        elif ch_ == 'i' and depth == 1 and par == 0 and re.match(r'if\b', b[i_:]) and re.search(r'[;{}]\s*$', b[:i_]):
+            tops.append(i_)
+    stmts_ = []
+    for i_ in tops:
+        chain_, rest_ = if_chain(b[i_:], 'create_recv_pending_htlc_info')
+        end_ = len(b) - len(rest_)
+        if 'RECV_AMOUNT_TOO_LOW__' in b[i_:end_]: stmts_.append((i_, end_))
+    if len(stmts_) != 1 or b.count('RECV_AMOUNT_TOO_LOW__') != nret or sum(b[a_:e_].count('RECV_AMOUNT_TOO_LOW__') for a_, e_ in stmts_) != nret:
+        raise TranslateError("create_recv_pending_htlc_info: the FinalIncorrectHTLCAmount returns are no longer inside ONE top-level `if` statement (%d found)" % len(stmts_))
+    s0_, e0_ = stmts_[0]
+    stmt = b[s0_:e0_]
+    if re.search(r'\breturn\b(?!\s+RECV_AMOUNT_TOO_LOW__)', stmt) or '?' in stmt:
+        raise TranslateError("create_recv_pending_htlc_info: the amount statement has another exit than the FinalIncorrectHTLCAmount error")
+    # (c) pure `let`s directly in front of it that it (transitively) reads
+    lets_ = []; pre_ = b[:s0_]; used_ = stmt
+    while True:
+        ml = re.search(r'(?:^|[;{}])\s*let\s+(\w+)(?:\s*:\s*\w+)?\s*=\s*([^;{}]+);\s*$', pre_)
+        if not ml: break
+        if re.search(r'\b%s\b' % ml.group(1), used_):
+            lets_.insert(0, (ml.group(1), norm(ml.group(2)))); used_ += ' ' + ml.group(2)
+        pre_ = pre_[:ml.start() + (0 if pre_[ml.start()] not in ';{}' else 1)]
+    params_ = {'allow_underpay', 'onion_amt_msat', 'amt_msat', 'counterparty_skimmed_fee_msat'}
+    for nm_, ex_ in lets_:
+        if nm_ in params_: raise TranslateError("create_recv_pending_htlc_info: `let %s` shadows an input of the amount test" % nm_)
+    # the inputs themselves must be what they were: parameters / the tuple slot of the onion amount, not re-bound in between
+    for nm_ in ('amt_msat', 'allow_underpay', 'counterparty_skimmed_fee_msat'):
+        if len(re.findall(r'\blet\s+(?:mut\s+)?%s\b' % nm_, b[:s0_])) != 0:
+            raise TranslateError("create_recv_pending_htlc_info: `%s` is re-bound in front of the amount test" % nm_)
+    text_ = ' '.join('let %s = %s;' % le for le in lets_) + ' ' + stmt
+    check_vars(text_.replace('RECV_AMOUNT_TOO_LOW__', 'true'), params_, 'create_recv_pending_htlc_info amount test')
+    def too_low(t):
+        """t: pure `let`s, `if` chains (nested) and `return RECV_AMOUNT_TOO_LOW__;` -> Lean Bool: was the error returned?"""
+        t = t.strip()
+        if not t: return 'false'
+        if re.match(r'return RECV_AMOUNT_TOO_LOW__;', t): return 'true'
+        ml = re.match(r'let\s+(\w+)(?:\s*:\s*\w+)?\s*=\s*([^;{}]+);', t)
+        if ml: return '(let %s := %s;\n  %s)' % (ml.group(1), emitter().e(parse_expr(ml.group(2))), too_low(t[ml.end():]))
+        if re.match(r'if\b', t):
+            chain_, rest_ = if_chain(t, 'create_recv_pending_htlc_info amount statement')
+            out_ = 'false'
+            for c_, blk in reversed(chain_):
+                out_ = too_low(blk) if c_ is None else '(if %s then %s else\n  %s)' % (emitter().e(parse_expr(c_)), too_low(blk), out_)
+            return out_ if not rest_.strip() else '(%s || %s)' % (out_, too_low(rest_))
+        raise TranslateError("create_recv_pending_htlc_info: statement of the amount test outside the subset: %r" % t[:60])
+    shown_ = norm(text_.replace('return RECV_AMOUNT_TOO_LOW__;', 'return Err(FinalIncorrectHTLCAmount);'))
+    m1_ = re.fullmatch(r'if ([^{}]+?) \{ return Err\(FinalIncorrectHTLCAmount\); \}', shown_)
+    if m1_:   # the plain `if <cond> { return Err(..) }`: emit the condition itself (keeps Generated/ byte-identical for the current source)
+        doc_ = m1_.group(1); lean_ = emitter().e(parse_expr(m1_.group(1)))
+    else:
+        doc_ = shown_; lean_ = too_low(text_)
+    L += ['/-- onion_payment.rs::create_recv_pending_htlc_info, FinalIncorrectHTLCAmount: `%s`' % doc_,
           '    (amt_msat: amount of the HTLC; onion_amt_msat: amt_to_forward; allow_underpay: the channel\'s accept_underpaying_htlcs) -/',
           'def recvAmountTooLow (allow_underpay : Bool) (onion_amt_msat amt_msat : Nat) (counterparty_skimmed_fee_msat : Option Nat) : Bool :=',
-          '  ' + emitter().e(parse_expr(cond)), '']
+          '  ' + lean_, '']
+
+    # ---- create_recv_pending_htlc_info: which routing a final HTLC gets (keysend / invoice / refused), and the amounts it hands on ----
+    _, _, body = find_fn(op, 'create_recv_pending_htlc_info')
+    b = norm(strip_comments(body))
+    i0 = b.find('let routing = ')
+    if i0 < 0: raise TranslateError("create_recv_pending_htlc_info: `let routing = ..` not found")
+    if b.find('FinalIncorrectHTLCAmount') > i0 or b.find('PaymentClaimBuffer') > i0:
+        raise TranslateError("create_recv_pending_htlc_info: the routing selection no longer follows the final CLTV / amount tests")
+    t = b[i0 + len('let routing = '):]
+    arms = []   # (binder pattern, scrutinee) or None for the final else; block text
+    while True:
+        mh = re.match(r'if let Some\((\w+)\) = (\w+) \{', t)
+        if mh:
+            j = match_brace(t, mh.end() - 1)
+            arms.append(((mh.group(1), mh.group(2)), t[mh.end():j - 1].strip()))
+            t = t[j:].lstrip()
+            if not t.startswith('else '): raise TranslateError("create_recv_pending_htlc_info: routing selection without a final else")
+            t = t[5:]
+            continue
+        if t.startswith('{'):
+            j = match_brace(t, 0)
+            arms.append((None, t[1:j - 1].strip())); t = t[j:].lstrip()
+            break
+        raise TranslateError("create_recv_pending_htlc_info: routing selection is no longer an `if let Some(..) = .. {} else ..` chain: %r" % t[:60])
+    if not t.startswith(';'): raise TranslateError("create_recv_pending_htlc_info: routing selection not closed by `;`")
+    if [a_[0] and a_[0][1] for a_ in arms] != ['keysend_preimage', 'payment_data', None]:
+        raise TranslateError("create_recv_pending_htlc_info: routing selection no longer tests keysend_preimage, then payment_data: %s" % [a_[0] for a_ in arms])
+    ERR_RE = r'return Err\(InboundHTLCErr \{ reason: LocalHTLCFailureReason::(\w+), err_data: [^;]*?, msg: "[^"]*",? \}\);?'
+    def arm_result(txt, what):
+        m_ = re.fullmatch(ERR_RE, txt)
+        if m_: return '.refused .%s' % lcv(m_.group(1))
+        m_ = re.fullmatch(r'PendingHTLCRouting::(\w+) \{[^{}]*\}', txt)
+        if m_ and m_.group(1) in ('ReceiveKeysend', 'Receive'): return '.keysend' if m_.group(1) == 'ReceiveKeysend' else '.invoice'
+        raise TranslateError("create_recv_pending_htlc_info: %s arm of the routing selection not recognised: %r" % (what, txt[:80]))
+    lcv = lambda n: n[0].lower() + n[1:]
+    # keysend arm: `let hashed_preimage = PaymentHash(Sha256::hash(&<binder>.0).to_byte_array()); if <C> { return Err(..) } <routing>`
+    kb = arms[0][0][0]
+    mk = re.fullmatch(r'let hashed_preimage = PaymentHash\(Sha256::hash\(&%s\.0\)\.to_byte_array\(\)\); if ([^{}]+?) \{ (%s) \} (PendingHTLCRouting::\w+ \{[^{}]*\})' % (kb, ERR_RE), arms[0][1])
+    if not mk: raise TranslateError("create_recv_pending_htlc_info: keysend arm is no longer `let hashed_preimage = sha256(preimage); if <test> { return Err } ReceiveKeysend {..}`: %r" % arms[0][1][:120])
+    kcond = mk.group(1)
+    check_vars(kcond, {'hashed_preimage', 'payment_hash'}, 'keysend preimage test')
+    k_err = arm_result(mk.group(2), 'keysend error'); k_ok = arm_result(mk.groups()[-1], 'keysend')
+    if not re.search(r'\bpayment_preimage\b', mk.groups()[-1]) or kb != 'payment_preimage': raise TranslateError("ReceiveKeysend no longer carries the tested preimage")
+    inv = arm_result(arms[1][1], 'payment_data'); els = arm_result(arms[2][1], 'else')
+    if not re.search(r'payment_data: %s\b' % arms[1][0][0], arms[1][1]): raise TranslateError("Receive no longer carries the payment_data that was tested")
+    L += ['/-- what create_recv_pending_htlc_info does with a final-hop HTLC that passed the CLTV / amount tests -/',
+          'inductive RecvRouting where', '  | keysend | invoice | refused (reason : FailReason)', '  deriving DecidableEq, Repr', '',
+          '/-- the keysend test (translated): `if %s { return Err(..) }` (hashed_preimage = SHA-256 of the onion\'s keysend preimage) -/' % kcond,
+          'def keysendPreimageMismatch (hashed_preimage payment_hash : Nat) : Bool :=', '  ' + Emitter(narrow=lambda t: False).e(parse_expr(kcond)), '',
+          '/-- onion_payment.rs::create_recv_pending_htlc_info, `let routing = if let Some(payment_preimage) = keysend_preimage { .. } else if let Some(data) = payment_data { .. } else { .. }`',
+          '    (arms in source order, results read from the text; keysend_preimage: code of the preimage, sha256: the hash as a function on codes) -/',
+          'def recvRouting (sha256 : Nat → Nat) (keysend_preimage : Option Nat) (payment_data : Bool) (payment_hash : Nat) : RecvRouting :=',
+          '  match keysend_preimage with',
+          '  | some payment_preimage =>',
+          '    let hashed_preimage := sha256 payment_preimage',
+          '    if keysendPreimageMismatch hashed_preimage payment_hash then %s else %s' % (k_err, k_ok),
+          '  | none => if payment_data then %s else %s' % (inv, els), '']
+    # the PendingHTLCInfo it returns: which amount goes where (process_receive_htlcs builds the part from these, see recvValue / recvPart)
+    mi_ = re.match(r' Ok\(PendingHTLCInfo (\{[^{}]*\})\) \}$', t[1:])
+    if not mi_: raise TranslateError("create_recv_pending_htlc_info: the final `Ok(PendingHTLCInfo { .. })` changed: %r" % t[:80])
+    info = dict(lit_ for lit_ in parse_expr('PendingHTLCInfo ' + mi_.group(1))[2])
+    for n_ in ('incoming_amt_msat', 'outgoing_amt_msat', 'skimmed_fee_msat'):
+        if n_ not in info: raise TranslateError("PendingHTLCInfo.%s missing" % n_)
+    for n_ in ('incoming_amt_msat', 'outgoing_amt_msat', 'skimmed_fee_msat'):
+        check_vars(re.search(r'\b%s(?:: ([^,}]+))?[,}]' % n_, mi_.group(1)).group(1) or n_, {'amt_msat', 'onion_amt_msat', 'counterparty_skimmed_fee_msat'}, 'PendingHTLCInfo.%s' % n_)
+    L += ['/-- the amounts of the `PendingHTLCInfo` create_recv_pending_htlc_info returns: (incoming_amt_msat, outgoing_amt_msat, skimmed_fee_msat) -/',
+          'def recvInfoAmounts (amt_msat onion_amt_msat : Nat) (counterparty_skimmed_fee_msat : Option Nat) : Option Nat × Nat × Option Nat :=',
+          '  (%s, %s, %s)' % tuple(emitter().e(info[n_]) for n_ in ('incoming_amt_msat', 'outgoing_amt_msat', 'skimmed_fee_msat')), '']
+
+    # ---- process_receive_htlcs: the min_final_cltv_expiry_delta test after inbound_payment::verify -----------------------
+    # `if let Some(min_final_cltv_expiry_delta) = min_final_cltv_expiry_delta { let expected_min_expiry_height = <E>; if <C> { log; fail_htlc!(..); } }`
+    _, _, body = find_fn(cm, 'process_receive_htlcs')
+    pb = strip_comments(body)
+    mv = re.search(r'let \(payment_preimage, min_final_cltv_expiry_delta\) = match verify_res \{\s*Ok\(result\) => result,\s*Err\(\(\)\) => \{\s*(?:log_trace!\([^;]*\);\s*)?fail_htlc!\(payment_hash\);\s*\},?\s*\};', pb)
+    if not mv: raise TranslateError("process_receive_htlcs: `let (payment_preimage, min_final_cltv_expiry_delta) = match verify_res { Ok(result) => result, Err(()) => { fail_htlc! } }` changed")
+    mc_ = re.match(r'\s*if let Some\(min_final_cltv_expiry_delta\) = min_final_cltv_expiry_delta\s*\{', pb[mv.end():])
+    if not mc_: raise TranslateError("process_receive_htlcs: the min_final_cltv_expiry_delta test no longer follows inbound_payment::verify directly")
+    k0 = mv.end() + mc_.end() - 1
+    inner = pb[k0 + 1:match_brace(pb, k0) - 1]
+    if not re.match(r'\s*payment_preimage\s*\}', pb[match_brace(pb, k0):]): raise TranslateError("process_receive_htlcs: statements appeared between the min_final_cltv test and `payment_preimage`")
+    inner = re.sub(r'log_trace!\((?:[^()]|\([^()]*\))*\);', '', inner)
+    inner = inner.replace('fail_htlc!(payment_hash);', 'return RECV_CLTV_BELOW_MIN__;')
+    if inner.count('RECV_CLTV_BELOW_MIN__') < 1 or '!' in inner.replace('!=', ''): raise TranslateError("process_receive_htlcs: min_final_cltv test no longer ends in fail_htlc!(payment_hash): %r" % norm(inner)[:200])
+    # the receiver's height as this function reads it
+    hsrc = [h_ for h_ in ('self.current_best_block().height', 'self.best_block.read().unwrap().height') if h_ in inner]
+    inner2 = inner
+    for h_ in hsrc: inner2 = inner2.replace(h_, 'height')
+    check_vars(inner2.replace('RECV_CLTV_BELOW_MIN__', 'true'), {'height', 'min_final_cltv_expiry_delta', 'cltv_expiry'}, 'process_receive_htlcs min_final_cltv test')
+    if not re.search(r'PendingHTLCRouting::Receive \{[^}]*\bincoming_cltv_expiry\b', pb) or not re.search(r'=> \{(?:(?!=> \{).)*?\(\s*incoming_cltv_expiry,\s*OnionPayload::Invoice', pb, re.S):
+        raise TranslateError("process_receive_htlcs: cltv_expiry of a Receive is no longer the HTLC's incoming_cltv_expiry")
+    def cltv_low(t):
+        t = t.strip()
+        if not t: return 'false'
+        if re.match(r'return RECV_CLTV_BELOW_MIN__;', t): return 'true'
+        ml = re.match(r'let\s+(\w+)(?:\s*:\s*\w+)?\s*=\s*([^;{}]+);', t)
+        if ml: return '(let %s := %s;\n  %s)' % (ml.group(1), emitter().e(parse_expr(ml.group(2))), cltv_low(t[ml.end():]))
+        if re.match(r'if\b', t):
+            chain_, rest_ = if_chain(t, 'process_receive_htlcs min_final_cltv statement')
+            out_ = 'false'
+            for c_, blk in reversed(chain_):
+                out_ = cltv_low(blk) if c_ is None else '(if %s then %s else\n  %s)' % (emitter().e(parse_expr(c_)), cltv_low(blk), out_)
+            return out_ if not rest_.strip() else '(%s || %s)' % (out_, cltv_low(rest_))
+        raise TranslateError("process_receive_htlcs: statement of the min_final_cltv test outside the subset: %r" % t[:60])
+    L += ['/-- channelmanager.rs::process_receive_htlcs, after inbound_payment::verify returned Some(min_final_cltv_expiry_delta):',
+          '    `%s` (true = the new HTLC is failed back with IncorrectPaymentDetails; height: the receiver\'s best block height; u32/u64 casts are widenings) -/' % norm(inner.replace('return RECV_CLTV_BELOW_MIN__;', 'fail_htlc!(payment_hash);')),
+          'def recvCltvBelowMin (height min_final_cltv_expiry_delta cltv_expiry : Nat) : Bool :=',
+          '  ' + cltv_low(inner2), '']
 
     # ---- the fail-back sites of the accumulator: WHICH HTLCs are failed, with WHICH LocalHTLCFailureReason ---------
     lcv = lambda n: n[0].lower() + n[1:]
